@@ -4036,7 +4036,10 @@ class SubProofMacro(Macro):
         goal_neg_tms = args[:-1]
         goal_concl = args[-1]
         if all(g == Not(p) for g, p in zip(goal_neg_tms, input_prop)) and goal_concl == concl:
-            return Thm(Or(*args))
+            # Only the local assumptions are discharged, the other hypotheses of the
+            # last step remain.
+            hyps = tuple(hyp for hyp in prevs[-1].hyps if hyp not in input_prop)
+            return Thm(Or(*args), hyps)
         else:
             raise VeriTException("subproof", "unexpected result")
 
